@@ -345,7 +345,7 @@ def _py_list_from_vec(form: vec.PersistentVector) -> list:
 def _inst_from_str(inst_str: str) -> datetime:
     try:
         return langutil.inst_from_str(inst_str)
-    except (ValueError, OverflowError) as e:
+    except (TypeError, ValueError, OverflowError) as e:
         raise SyntaxError(f"Unrecognized date/time syntax: {inst_str}") from e
 
 
